@@ -102,7 +102,9 @@ class Batch:
 def run_sources(ctx, exe, sources, tag, nenv=3, probe=1, ast=False, timeout_ms=None, cfgs=None, stats=None):
     """minify + execute + TLC-validate.  Returns (pairs, obs_lines, rejects[list of (pair_index, env, why)])."""
     vlib._speccopy(ctx)      # (copy the specs once, before TLC shards start in parallel threads)
+    t0 = time.time()
     results = minify_all(ctx, exe, sources, tag, cfgs)
+    t1 = time.time()
     pairs = []
     st = stats if stats is not None else {}
     for r in results:
@@ -129,7 +131,11 @@ def run_sources(ctx, exe, sources, tag, nenv=3, probe=1, ast=False, timeout_ms=N
         lines.append(dict(id=o['id'], env=o['env'], a=o['a'], b=o['b']))
         index.append((o['id'], o['env']))
     st['engine_observations'] = st.get('engine_observations', 0) + len(lines)
+    t2 = time.time()
     accepted, rejects = vlib.tlc_trace(ctx, 'JsObs', 'JsObs.cfg', lines, min_per_shard=400)
+    if os.environ.get('VERIF_DEBUG'):
+        vlib.log('  [%s] minify %.1fs  node %.1fs  tlc %.1fs  (%d programs, %d pairs, %d lines)' % (tag, t1 - t0, t2 - t1, time.time() - t2,
+                                                                                               len(sources), len(pairs), len(lines)))
     st['engine_accepted'] = st.get('engine_accepted', 0) + accepted
     rej = [(index[i][0], index[i][1], why) for i, why in rejects]
     return pairs, lines, rej, astlines
